@@ -1010,7 +1010,131 @@ def recovery_refuses_missing(fns):
     return out
 
 
+
+# ---------------------------------------------------------------------------------------------
+# C14 / C02 O14.3: every item a table iterator / scanner yields carries seqno + global_seqno
+# ---------------------------------------------------------------------------------------------
+
+def _closure_adds(fns, call_block):
+    """does a closure passed to this call contain a checked u64 addition fed by a captured place?"""
+    for cf in closure_fns(fns, call_block):
+        for b in live_blocks(cf):
+            for st in b.stmts:
+                if re.search(r"= AddWithOverflow\(", st):
+                    return True
+    return False
+
+
+def _seqno_translation(fns, sel, title, produce_re):
+    fn = mir.find(fns, sel)
+    uf = alias_classes(fn)
+    a = Automaton(fn, title)
+    prods = calls(fn, produce_re)
+    if not prods:
+        raise MirError("no data-block item producer found in " + fn.name)
+    maps_add = [b for b in calls(fn, r"Option::<InternalValue>::map::<InternalValue, \{closure") if _closure_adds(fns, b)]
+    inline = []
+    for b in live_blocks(fn):
+        for st in b.stmts:
+            if re.search(r"= AddWithOverflow\(copy \(\(.*key::InternalKey\)\.1: u64\), (copy|move) ", st) or \
+               re.search(r"= AddWithOverflow\(.*InternalKey\)\.1: u64\)", st):
+                inline.append(b.idx)
+    none_edges = []
+    for b in live_blocks(fn):
+        if b.kind != "switch":
+            continue
+        for st in b.stmts:
+            m = re.match(r"^(_\d+) = discriminant\((_\d+)\)$", st)
+            if m and m.group(1) == RE_LOCAL.search(b.args).group(0) and any(same_class(uf, m.group(2), p.dest) for p in prods):
+                for v, tgt in b.switch:
+                    if v == "0":
+                        none_edges.append(edge_block(fn, b.idx, tgt))
+    rets = []
+    for b in live_blocks(fn):
+        for st in b.stmts:
+            if re.match(r"^_0 = Option::<std::result::Result<InternalValue, error::Error>>::Some\(", st):
+                rets.append(b.idx)
+    if not rets:
+        raise MirError("no `Some(..)` return found in " + fn.name)
+    a.var("produced").var("translated")
+    a.event("call:data block item", [b.idx for b in prods]).on("call:data block item", "produced", True).on("call:data block item", "translated", False)
+    a.event("edge:item == None", none_edges).on("edge:item == None", "produced", False)
+    a.event("call:map(|v| v.seqno += global_seqno)", [b.idx for b in maps_add]).on("call:map(|v| v.seqno += global_seqno)", "translated", True)
+    a.event("stmt:item.seqno += global_seqno", inline).on("stmt:item.seqno += global_seqno", "translated", True)
+    a.event("stmt:return Some(..)", rets)
+    a.require("stmt:return Some(..)", "(or (not {produced}) {translated})", "an item read from a data block can be yielded without adding the table's global seqno (ingested data gets the wrong age: invisible to / shadowed for the wrong snapshots)")
+    return a
+
+
+def seqno_translation(fns):
+    it = r"<OwnedDataBlockIter as (Iterator>::next|DoubleEndedIterator>::next_back)$"
+    return [
+        _seqno_translation(fns, r"src/table/iter\.rs[^>]*>::next\(_1: &mut table::iter::Iter\)", "O14.3a table::Iter::next: every yielded item carries seqno + global_seqno", it),
+        _seqno_translation(fns, r"src/table/iter\.rs[^>]*>::next_back\(_1: &mut table::iter::Iter\)", "O14.3b table::Iter::next_back: every yielded item carries seqno + global_seqno", it),
+        _seqno_translation(fns, r"src/table/scanner\.rs[^>]*>::next\(", "O14.3c table::Scanner::next: every yielded item carries seqno + global_seqno", it),
+    ]
+
+
+# ---------------------------------------------------------------------------------------------
+# C03 O3.6: iterators serve the front only from the front and the back only from the back
+# ---------------------------------------------------------------------------------------------
+
+BACKWARD = r"(DoubleEndedIterator>::next_back$|::next_back$|::peek_back$|::pop_max$|::peek_max$|::max$)"
+FORWARD = r"(as Iterator>::next$|::pop_min$|::peek_min$|DoubleEndedPeekable<.*>::next$|::peek$|::next_if::<)"
+
+
+def direction_discipline(fns):
+    out = []
+    targets = [
+        (r"src/table/iter\.rs[^>]*>::next\(_1: &mut table::iter::Iter\)", "table::Iter::next", BACKWARD),
+        (r"src/table/iter\.rs[^>]*>::next_back\(_1: &mut table::iter::Iter\)", "table::Iter::next_back", FORWARD),
+        (r"src/run_reader\.rs[^>]*>::next\(_1: &mut RunReader\)", "RunReader::next", BACKWARD),
+        (r"src/run_reader\.rs[^>]*>::next_back\(_1: &mut RunReader\)", "RunReader::next_back", FORWARD),
+        (r"src/merge\.rs[^>]*>::next\(_1: &mut Merger<I>\)", "Merger::next", BACKWARD),
+        (r"src/merge\.rs[^>]*>::next_back\(_1: &mut Merger<I>\)", "Merger::next_back", FORWARD),
+        (r"src/mvcc_stream\.rs[^>]*>::next\(_1: &mut MvccStream<I>\)", "MvccStream::next", BACKWARD),
+    ]
+    for sel, nm, bad_re in targets:
+        fn = mir.find(fns, sel)
+        a = Automaton(fn, "O3.6 %s serves its end of the scan only from that end of its sources" % nm)
+        bad = calls(fn, bad_re)
+        anyc = [b for b in live_blocks(fn) if b.kind == "call"]
+        if not anyc:
+            raise MirError("no calls in " + fn.name)
+        a.var("x")
+        a.event("call:wrong-direction access", [b.idx for b in bad])
+        a.require("call:wrong-direction access", "false", "%s pulls an item from the opposite end of one of its sources (items come out in the wrong order / cross the other end)" % nm)
+        out.append(a)
+    return out
+
+
+# ---------------------------------------------------------------------------------------------
+# C09 O9.4: a blob reference is linked to the table that holds the pointer
+# ---------------------------------------------------------------------------------------------
+
+def register_blob_after_write(fns):
+    """MultiWriter::write may rotate to a new table; register_blob links to the *current* table, so it
+    must come after the pointer's write succeeded."""
+    out = []
+    hosts = [f for f in fns if not getattr(f, "skip", False) and calls(f, r"MultiWriter::register_blob$")]
+    if not hosts:
+        raise MirError("no caller of MultiWriter::register_blob found")
+    for fn in hosts:
+        a = Automaton(fn, "O9.4 %s: register_blob only after the pointer was written (MultiWriter::write may rotate tables)" % fn.name[-60:])
+        regs = calls(fn, r"MultiWriter::register_blob$")
+        writes = calls(fn, r"table::multi_writer::MultiWriter::write$|MultiWriter::write$")
+        a.var("written")
+        a.event("ok:MultiWriter::write", ok_blocks(fn, writes, "MultiWriter::write", strict=False)).on("ok:MultiWriter::write", "written", True)
+        a.event("call:register_blob", [b.idx for b in regs]).on("call:register_blob", "written", False)
+        a.require("call:register_blob", "{written}", "a blob reference can be linked to a table before the pointer is written: if the writer rotates, the reference lands in the previous table and the garbage statistics count a live blob")
+        out.append(a)
+    return out
+
+
 SPECS = {
+    "O14.3": [seqno_translation],
+    "O3.6": [direction_discipline],
+    "O9.4": [register_blob_after_write],
     "O4.3": [reopen_counters],
     "O4.2b": [recovery_refuses_missing],
     "O9.3b": [with_merge_blob_rules],
